@@ -168,11 +168,14 @@ func TestVerif_C27_Health(t *testing.T) {
 				if e1.Type != "symlink" || gz {
 					continue
 				}
+				if !r.Thorough() && (strings.Contains(e1.Name, "/") || strings.Contains(e1.Name, "..") || e2.Type == "file" || strings.Contains(e2.Name, "..") || strings.HasPrefix(e2.Name, "/")) {
+					continue // quick: depth 3 only for link-at-top-level, then dir/link below it, then a file
+				}
 				for _, e3 := range alphabet {
 					if e3.Type != "file" && !r.Thorough() {
 						continue
 					}
-					if e2.Type == "file" && !r.Thorough() {
+					if !r.Thorough() && (strings.Contains(e3.Name, "..") || strings.HasPrefix(e3.Name, "/")) {
 						continue
 					}
 					c27hRun(r, c27hCase{gz, []c27hEntry{e1, e2, e3}})
